@@ -45,7 +45,7 @@ BuildArg(a) ==
       vp == IF a.vp.k # "string" THEN a.vp
             ELSE IF act \in {"SetTrue", "SetFalse"} THEN BoolVP
             ELSE IF act = "Count" THEN CountVP ELSE StringVP
-  IN [id |-> a.id, idb |-> a.idb, short |-> a.short, long |-> a.long, aliases |-> a.aliases, valiases |-> a.valiases, positional |-> IsPositionalDef(a),
+  IN [id |-> a.id, idb |-> a.idb, short |-> a.short, long |-> a.long, aliases |-> a.aliases, valiases |-> a.valiases, saliases |-> a.saliases, positional |-> IsPositionalDef(a),
       idx |-> a.index, action |-> act, nmin |-> nmin, nmax |-> nmax,
       required |-> a.required, global |-> a.global, last |-> a.last, tva |-> a.tva, hyphen |-> a.hyphen,
       negnum |-> a.negnum, req_eq |-> a.req_eq, delim |-> a.delim, term |-> a.term,
@@ -60,7 +60,7 @@ BuildArg(a) ==
       ignore_case |-> a.ignore_case, vp |-> vp, hide |-> a.hide,
       hide_short |-> a.hide_short, hide_long |-> a.hide_long, nlh |-> a.nlh, help |-> a.help, hide_pv |-> a.hide_pv]
 
-HelpArg == [id |-> "help", idb |-> <<104,101,108,112>>, short |-> <<104>>, long |-> <<104,101,108,112>>, aliases |-> <<>>, valiases |-> <<>>, positional |-> FALSE,
+HelpArg == [id |-> "help", idb |-> <<104,101,108,112>>, short |-> <<104>>, long |-> <<104,101,108,112>>, aliases |-> <<>>, valiases |-> <<>>, saliases |-> <<>>, positional |-> FALSE,
             idx |-> 0, action |-> "Help", nmin |-> 0, nmax |-> 0, required |-> FALSE, global |-> FALSE, last |-> FALSE,
             tva |-> FALSE, hyphen |-> FALSE, negnum |-> FALSE, req_eq |-> FALSE, delim |-> 0, term |-> <<>>,
             defaults |-> <<>>, missing |-> <<>>, default_ifs |-> <<>>, has_env |-> FALSE, env |-> <<>>,
@@ -129,7 +129,7 @@ FirstIdx(s, P(_)) == IF \E i \in 1..Len(s) : P(s[i]) THEN CHOOSE i \in 1..Len(s)
 
 \* MKeyMap::get: first argument (definition order) carrying the key
 KeyLongIdx(c, name) == FirstIdx(c.args, LAMBDA a : ~a.positional /\ ((a.long = name /\ a.long # <<>>) \/ name \in SeqToSet(a.aliases)))
-KeyShortIdx(c, ch) == FirstIdx(c.args, LAMBDA a : ~a.positional /\ a.short = ch /\ a.short # <<>>)
+KeyShortIdx(c, ch) == FirstIdx(c.args, LAMBDA a : ~a.positional /\ ((a.short = ch /\ a.short # <<>>) \/ ch \in SeqToSet(a.saliases)))
 KeyPosIdx(c, n) == FirstIdx(c.args, LAMBDA a : a.positional /\ a.idx = n)
 ContainsShort(c, ch) == KeyShortIdx(c, ch) # 0
 
